@@ -84,7 +84,7 @@ macro "modbits" : tactic => `(tactic|
 
 theorem maskBefore_mod (parsed : Abstract) (st : OptState) (b : Nat) (hb : ModBit b) :
     has (maskBeforePattern parsed st) b = (has st.mask b || has st.pos b) := by
-  unfold maskBeforePattern
+  unfold maskBeforePattern anchorStage typeStage
   rcases hb with rfl | rfl <;> (simp only []; repeat' split) <;> modbits
 
 theorem markComplete_mod (mask : Mask) (p : Str) (m : Mask) (h : markComplete mask p = .ok m) (b : Nat)
